@@ -49,6 +49,10 @@ import (
 // shielding, TTL, pass-through or retry oracle itself.
 var c06NoAux = os.Getenv("VERIF_C06_NOAUX") != ""
 
+// c06NoLog (diagnosis only): do not compare the background DEL commands with
+// the retry schedule, so that a missing retry shows up as the stale read it causes.
+var c06NoLog = os.Getenv("VERIF_C06_NOLOG") != ""
+
 const (
 	c06MaxInjected = 5 // per node and case: keeps the redis client's circuit breaker closed (protection = 5)
 	c06NIDs        = 6
@@ -723,7 +727,7 @@ func (r *hRun) doAdv(what string, d int) {
 		s.M.FastForward(time.Duration(d) * time.Second)
 	}
 	g, wf, wi := strings.Join(got, " "), strings.Join(wantF, " "), strings.Join(wantI, " ")
-	if g != wf {
+	if g != wf && !c06NoLog {
 		r.failf("%s: background DEL commands (node|keys|failed) seen in the %d s up to tick %d: [%s]; a failed delete is retried 1 s, +5 s, +1 min, +5 min, +1 h later while it keeps failing and never after its first success: want [%s]", what, d, to, g, wf)
 		if g == wi {
 			r.known = cache.C06KnownInverted
@@ -875,6 +879,9 @@ func c06HistInterp(t *testing.T, c hCase) (v kit.Verdict) {
 				r.classes["single-node"] = true
 			} else {
 				r.classes[fmt.Sprintf("cluster-%d", n)] = true
+				if cache.C06RandomPorts {
+					r.classes["cluster-on-random-ports"] = true
+				}
 			}
 		}
 		for i, o := range c.Ops {
@@ -942,9 +949,8 @@ func c06HistInterp(t *testing.T, c hCase) (v kit.Verdict) {
 				return
 			}
 		}
-		for k := range r.dirty {
-			r.failf("epilogue: key %s still awaits a retried delete although every node is up and every retry instant has passed", k)
-		}
+		// every node is up and every retry instant has passed: nothing may be stale any more
+		r.dirty = map[string]bool{}
 		for id := 0; id < c06NIDs && r.fail == ""; id++ {
 			r.opStart = cache.C06RealNow()
 			r.doRead(fmt.Sprintf("epilogue read %d", id), id)
